@@ -287,6 +287,9 @@ def gen_program(c):
                 top.append("Result<int, RuntimeError> cw(long i0, int v) { return checked (a[i0] = v); }")
             rcall = lambda nm, idxs: "%s(%s)" % (nm, ", ".join(map(str, idxs)))
             wcall = lambda i, v: "cw(%d, %d)" % (i, v)
+        elif loc in ("local", "mlocal"):
+            # since fix 982c54e a declaration initialised by try/checked receives the Result: used directly in main
+            rcall = wcall = None
         else:
             top.append("Result<int, RuntimeError> cr(%s a, %s) { return checked a%s; }" % (T, args, isub))
             top.append("Result<int, RuntimeError> tr(%s a, %s) { return try a%s; }" % (T, args, isub))
@@ -305,7 +308,9 @@ def gen_program(c):
         ctx = (c.get("ctx", 0) + j) % 3
         if t == "R":
             e = A + sub(o[1])
-            if mode == "checked":
+            if mode == "checked" and rcall is None:
+                body.append("  Result<int, RuntimeError> q%d = %s %s; show(q%d);" % (j, "try" if ctx == 2 else "checked", e, j))
+            elif mode == "checked":
                 body.append("  show(%s);" % rcall("tr" if ctx == 2 else "cr", o[1]))
             elif ctx == 0:
                 body.append("  println(%s);" % e)
@@ -314,7 +319,9 @@ def gen_program(c):
             else:
                 body.append("  println(%s + 0);" % e)
         elif t == "W":
-            if mode == "checked" and r == 1 and not member:
+            if mode == "checked" and r == 1 and not member and wcall is None:
+                body.append("  Result<int, RuntimeError> q%d = checked (a[%d] = %d); show(q%d);" % (j, o[1][0], o[2], j))
+            elif mode == "checked" and r == 1 and not member:
                 body.append("  show(%s);" % wcall(o[1][0], o[2]))
             else:
                 body.append("  %s%s = %d; println(\"u\");" % (A, sub(o[1]), o[2]))
@@ -516,8 +523,8 @@ def rand_case(rng, tier):
     locs = ["local", "global", "param"] + (["mlocal", "mglobal"] if r <= 2 else [])
     loc = rng.choice(locs)
     mode = rng.choice(["plain", "plain", "checked"])
-    if mode == "checked" and loc in ("local", "mlocal"):
-        loc = "param" if loc == "local" else "mglobal"          # `checked` only works inside `return` (finding #22)
+    if mode == "checked" and loc in ("local", "mlocal") and rng.random() < 0.5:
+        loc = "param" if loc == "local" else "mglobal"          # the other half: try/checked in a declaration (fix 982c54e)
     n = size(dims)
     init = [rng.randint(-99, 999) or 1 for _ in range(n)]
     if loc in ("mlocal", "mglobal") and r == 2:
